@@ -42,7 +42,7 @@ REQUIRED_THEOREMS = ['CfVerif.C15.' + n for n in (
     'views_quat_rigid_partial', 'views_quat_sign_partial', 'views_rotvec_quat_agree_partial', 'axis_zero_when_theta_zero', 'live_axis_counterexample', 'rodrigues_zero',
     'rodrigues_eq_pose',
     'rodrigues_neg_eq_transpose',
-    'solver_projection_eq_types',
+    'solver_projection_eq_types', 'angle_behind_base_station',
     'ippe_axes',
     'ippe_image_consistent',
     'ippe_rotation_consistent',
@@ -611,23 +611,85 @@ def rot_vectors(rng, n_random):
     return res
 
 
+SENSORS = [(-0.015, 0.0075, 0.0), (-0.015, -0.0075, 0.0), (0.015, 0.0075, 0.0), (0.015, -0.0075, 0.0)]
+
+
 def solver_rows(rng, rvs, n):
-    """(rot_vec_bs, t_bs, rot_vec_cf, t_cf, sensor, tag_bs, tag_cf): the Crazyflie is placed where the base station,
-    whatever its rotation, sees it inside (mostly) or near the edge of its field of view, 0.5 - 6 m away"""
+    """(rot_vec_bs, t_bs, rot_vec_cf, t_cf, sensor, tag_bs, tag_cf, where): base-station/Crazyflie pose pairs for the
+    solver-vs-types comparison.  The property quantifies over ALL pose pairs fed to both projection paths, so the
+    Crazyflie is placed, in the base station's own frame (whatever its rotation), in front of it inside the field of
+    view, in front but outside it, beside it (x ~ 0 of either sign), and behind it (x < 0, all four y/z sign quadrants)."""
     np, Rotation = _mods()[:2]
-    sens = [(-0.015, 0.0075, 0.0), (-0.015, -0.0075, 0.0), (0.015, 0.0075, 0.0), (0.015, -0.0075, 0.0)]
     rows = []
+    kinds = ['front'] * 4 + ['wide', 'beside', 'beside', 'behind', 'behind', 'behind']
     for _ in range(n):
         (rb, tagb), (rc, tagc) = rng.choice(rvs), rng.choice(rvs)
         tb = [rng.uniform(-3, 3), rng.uniform(-3, 3), rng.uniform(0, 3)]
-        h = rng.uniform(-FOV_H, FOV_H) * rng.choice([1.0, 1.0, 0.2])
-        v = rng.uniform(-FOV_V, FOV_V) * rng.choice([1.0, 1.0, 0.2])
         dist = rng.uniform(0.5, 6.0)
-        local = np.array([1.0, math.tan(h), math.tan(v)])
+        where = rng.choice(kinds)
+        if where == 'front':
+            h = rng.uniform(-FOV_H, FOV_H) * rng.choice([1.0, 1.0, 0.2])
+            v = rng.uniform(-FOV_V, FOV_V) * rng.choice([1.0, 1.0, 0.2])
+            local = np.array([1.0, math.tan(h), math.tan(v)])
+        elif where == 'wide':
+            local = np.array([1.0, math.tan(rng.uniform(-1.55, 1.55)), math.tan(rng.uniform(-1.55, 1.55))])
+        else:
+            # y and z well away from 0 (so that no angle sits on atan2's branch cut or at its singular point, where the
+            # two paths may legitimately differ by rounding), any signs
+            y = rng.choice([-1, 1]) * rng.uniform(0.2, 1.0)
+            z = rng.choice([-1, 1]) * rng.uniform(0.2, 1.0)
+            if where == 'beside':
+                x = rng.choice([-1, 1]) * rng.choice([1e-2, 1e-4, 1e-7, 1e-10])
+            else:
+                x = -rng.choice([rng.uniform(0.05, 1.0), rng.uniform(1.0, 20.0)])
+            local = np.array([x, y, z])
         local = dist * local / np.linalg.norm(local)
         tc = Rotation.from_rotvec(np.array(rb)).as_matrix().dot(local) + np.array(tb)
-        rows.append((tuple(rb), tb, tuple(rc), [float(x) for x in tc], rng.choice(sens), tagb, tagc))
+        rows.append((tuple(rb), tb, tuple(rc), [float(x) for x in tc], rng.choice(SENSORS), tagb, tagc, where))
     return rows
+
+
+def exact_rows():
+    """pose pairs without rotation whose arithmetic is exact in BOTH paths, so that the sensor sits exactly on the
+    special sets of atan2: x = 0 (y > 0, y < 0, y = 0), the negative x axis (y = 0 or z = 0, x < 0: the branch cut), the
+    base station's own position (0, 0, 0), and plainly behind / in front"""
+    z3 = (0.0, 0.0, 0.0)
+    rows = []
+    for s in SENSORS[:2]:
+        for lx, ly, lz, name in ((0.0, 1.5, -0.5, 'x=0,y>0'), (0.0, -1.5, 0.5, 'x=0,y<0'), (0.0, 0.0, 2.0, 'x=0,y=0'),
+                                 (0.0, 1.0, 0.0, 'x=0,z=0'), (-2.0, 0.0, 1.0, 'x<0,y=0'), (-2.0, 1.0, 0.0, 'x<0,z=0'),
+                                 (-3.0, 0.0, 0.0, 'x<0,y=0,z=0'), (0.0, 0.0, 0.0, 'origin'), (-3.0, 0.5, -0.25, 'x<0'),
+                                 (-3.0, -0.5, 0.25, 'x<0'), (2.0, 0.5, 0.25, 'x>0'), (2.0, 0.0, 0.0, 'x>0,y=0,z=0')):
+            tc = [1.0, -2.0, 0.5]
+            p = [s[i] + tc[i] for i in range(3)]          # the sensor in the global frame, as both paths compute it
+            tb = [p[0] - lx, p[1] - ly, p[2] - lz]
+            if [p[i] - tb[i] for i in range(3)] != [lx, ly, lz]:
+                continue                                    # not exactly representable: skip rather than approximate
+            rows.append((z3, tb, z3, tc, s, 'identity', 'identity', 'exact:' + name))
+    return rows
+
+
+def pair_tolerances(local, where):
+    """per-angle comparison tolerance for atan2(y, x), atan2(z, x) of the point `local`: 1e-9 scaled by the condition
+    number |p| / hypot(x, y|z) of the angle (rounding of ~1e-16 |p| in the point moves the angle by that much);
+    rows built with exact arithmetic must agree to 1e-12"""
+    if where.startswith('exact:'):
+        return [1e-12, 1e-12]
+    n = math.sqrt(sum(float(c) ** 2 for c in local))
+    res = []
+    for c in (float(local[1]), float(local[2])):
+        hyp = math.hypot(float(local[0]), c)
+        res.append(1e-9 * max(1.0, n / hyp) if hyp > 0 else float('inf'))
+    return res
+
+
+def types_local(bs_params, cf_params, sensor):
+    """the sensor position in the base-station frame by the types path (Pose.from_rot_vec, rotate_translate, inv_rotate_translate)"""
+    np, Rotation, BsV, Pose, Solver, Solution, IppeCf = _mods()
+    defs = Solution()
+    bs = Solver._params_to_pose(np.array(bs_params, dtype=float), defs)
+    cf = Solver._params_to_pose(np.array(cf_params, dtype=float), defs)
+    return bs.inv_rotate_translate(cf.rotate_translate(np.array(sensor, dtype=float)))
 
 
 def rvec_to_matrix(rv):
@@ -713,8 +775,8 @@ def gen_cases(ctx):
         add('rod', tvec() + list(rv) + tvec(), tag)
         add('rotvecmat', rv, tag)
         add('rotvecquat', rv, tag)
-    for rb, tb, rc, tc, sn, tagb, tagc in solver_rows(rng, rvs + UNDERFLOW, 2000 if thorough else 400):
-        add('pair', list(rb) + tb + list(rc) + tc + list(sn), tagb + '/' + tagc)
+    for rb, tb, rc, tc, sn, tagb, tagc, where in exact_rows() + solver_rows(rng, rvs + UNDERFLOW, 3000 if thorough else 700):
+        add('pair', list(rb) + tb + list(rc) + tc + list(sn), tagb + '/' + tagc + '@' + where)
     for _ in range(300 if thorough else 80):
         q = [rng.gauss(0, 1) * rng.choice([1.0, 1.0, 3.0, 0.01]) for _ in range(4)]
         add('quatmat', q, 'random-quat')
@@ -746,6 +808,13 @@ def correspond(ctx):
         if op == 'lh2':
             x = math.tan(math.pi / 6) * (math.cos(a[0]) + math.cos(a[1]))
             ctx.count('branch:lh2:' + ('sweeps-cross-in-front' if x > 0 else 'behind'))
+        tols = None
+        if op == 'pair':
+            where = tag.split('@')[1]
+            local = types_local(a[0:6], a[6:12], a[12:15])
+            tols = pair_tolerances(local, where)
+            ctx.count('branch:pair:' + where)
+            ctx.count('branch:pair-atan2:' + ('x>0' if local[0] > 0 else 'x<0' if local[0] < 0 else 'x=0'))
         if op in ('rod', 'rotvecmat', 'rotvecquat'):
             rv = a[3:6] if op == 'rod' else a
             th2 = sum(c * c for c in rv)
@@ -757,7 +826,8 @@ def correspond(ctx):
                 real = ('ok', [-x for x in real[1]])
         ok = model[0] == real[0] and (
             (real[0] == 'err' and model[1] == real[1]) or
-            (real[0] == 'ok' and len(model[1]) == len(real[1]) and all(close(x, y, tol) for x, y in zip(model[1], real[1]))))
+            (real[0] == 'ok' and len(model[1]) == len(real[1]) and
+             all(close(x, y, tol if tols is None else tols[i]) for i, (x, y) in enumerate(zip(model[1], real[1])))))
         if real[0] == 'ok' and any(math.isnan(x) for x in real[1]):
             ctx.count('result:nan')
         if not ok:
@@ -868,28 +938,30 @@ def search(ctx):
     defs = Solution()
     rows = [(tuple(w['bs_params'][:3]), list(w['bs_params'][3:]), tuple(w['cf_params'][:3]), list(w['cf_params'][3:]),
              tuple(w['sensor']), 'underflow', 'corpus') for w in corpus()]
-    rows += solver_rows(rng, rvs + UNDERFLOW, 3000 if thorough else 600)
-    bs_a = np.array([list(r[0]) + r[1] for r in rows])
-    cf_a = np.array([list(r[2]) + r[3] for r in rows])
+    rows = [r + ('corpus',) for r in rows] + exact_rows() + solver_rows(rng, rvs + UNDERFLOW, 4000 if thorough else 1000)
+    bs_a = np.array([list(r[0]) + list(r[1]) for r in rows])
+    cf_a = np.array([list(r[2]) + list(r[3]) for r in rows])
     se_a = np.array([r[4] for r in rows])
     with np.errstate(all='ignore'):
         got = Solver._calc_angle_pairs(bs_a, cf_a, se_a, defs)
-    for i, (rb, tb, rc, tc, s, tagb, tagc) in enumerate(rows):
-        bs = Solver._params_to_pose(bs_a[i], defs)
-        cf = Solver._params_to_pose(cf_a[i], defs)
-        local = bs.inv_rotate_translate(cf.rotate_translate(np.array(s)))
-        if local[0] < 0.05 * float(np.linalg.norm(local)):
-            ctx.count('search:solver:behind-or-grazing')
-            continue      # ill-conditioned: behind the base station or grazing; not a direction it can see
+    for i, (rb, tb, rc, tc, s, tagb, tagc, where) in enumerate(rows):
+        # the types path: Pose.from_rot_vec -> rotate_translate -> inv_rotate_translate -> LighthouseBsVector.from_cart.
+        # The two paths must return the same numbers wherever the sensor is: in front, beside or behind the base station.
+        local = types_local(bs_a[i], cf_a[i], s)
         want = BsV.from_cart(local).lh_v1_angle_pair
+        tols = pair_tolerances(local, where)
         under = 'underflow' in (tagb, tagc)
         ctx.count('search:solver:' + ('underflow' if under else 'zero' if 'identity' in (tagb, tagc) else 'other'))
-        if far(got[i], want, 1e-9):
+        ctx.count('search:solver-where:' + where.split(':')[0])
+        ctx.count('search:solver-atan2:' + ('x>0' if local[0] > 0 else 'x<0' if local[0] < 0 else 'x=0'))
+        bad = [j for j in (0, 1) if not (abs(float(got[i][j]) - float(want[j])) <= tols[j])]     # NaN => bad
+        if bad:
             ctx.witness('solver-vs-types-underflow' if under else 'solver-vs-types',
                         "solver's vectorised projection differs from the projection defined by Pose/LighthouseBsVector" +
-                        (' (non-zero rotation vector whose squared norm underflows to 0)' if under else ''),
-                        {'bs_params': _flat(bs_a[i]), 'cf_params': _flat(cf_a[i]), 'sensor': list(s)}, got=_flat(got[i]), want=list(want))
-
+                        (' (non-zero rotation vector whose squared norm underflows to 0)' if under else '') +
+                        ' [sensor %s the base station]' % ('behind' if local[0] < 0 else 'beside' if local[0] == 0 else 'in front of'),
+                        {'bs_params': _flat(bs_a[i]), 'cf_params': _flat(cf_a[i]), 'sensor': list(s), 'where': where,
+                         'sensor_in_bs_frame': _flat(local)}, got=_flat(got[i]), want=list(want), tolerance=tols)
 
 def replay(ctx, rp):
     """re-execute the witness of a replay file on the current tree; True = it STILL FAILS"""
@@ -901,10 +973,11 @@ def replay(ctx, rp):
         bs_a, cf_a, se_a = np.array([inp['bs_params']]), np.array([inp['cf_params']]), np.array([inp['sensor']])
         with np.errstate(all='ignore'):
             got = Solver._calc_angle_pairs(bs_a, cf_a, se_a, defs)[0]
-        bs, cf = Solver._params_to_pose(bs_a[0], defs), Solver._params_to_pose(cf_a[0], defs)
-        want = BsV.from_cart(bs.inv_rotate_translate(cf.rotate_translate(se_a[0]))).lh_v1_angle_pair
-        print('solver:', _flat(got), 'types:', list(want))
-        return not bool(np.all(np.abs(got - np.array(want)) <= 1e-9))
+        local = types_local(bs_a[0], cf_a[0], se_a[0])
+        want = BsV.from_cart(local).lh_v1_angle_pair
+        tols = pair_tolerances(local, inp.get('where', ''))
+        print('sensor in base-station frame:', _flat(local), 'solver:', _flat(got), 'types:', list(want))
+        return any(not (abs(float(got[j]) - float(want[j])) <= tols[j]) for j in (0, 1))
     if rp.get('kind') == 'no-failing-input-found':
         print('nothing to replay: the file names the obligations that no longer check; run ./check C15:', [b.get('name') for b in rp.get('broken', [])])
         return False
